@@ -304,7 +304,8 @@ def numeric_layer(exe, rels, fps, qs, stddim, twins, pairs, wd, n):
             roles = [0, 0]
             if fps[p['fwd']]['cls'] == 'other' or fps[p['back']]['cls'] == 'other':
                 roles = [ROLE.get(a, 0) for a in (fw['args'] + ['x'])[:2]]
-            f.write(f"{p['fwd']} {p['back']} {len(fw['args'])} {p['posA'] - 1} {p['posC'] - 1} {sq} {lin} {roles[0]} {roles[1]}\n")
+            role_c = ROLE.get(fw['ret'], 0) if (roles[0] or roles[1]) else 0
+            f.write(f"{p['fwd']} {p['back']} {len(fw['args'])} {p['posA'] - 1} {p['posC'] - 1} {sq} {lin} {roles[0]} {roles[1]} {role_c}\n")
     from fractions import Fraction as Fr
     import scan as _scan
     with open(os.path.join(wd, 'mono.txt'), 'w') as f:
